@@ -10,6 +10,10 @@ mkdir -p ../bin
 if ! out=$(go build -tags verif -o $BIN ./cmd/mc 2>&1); then
   echo "HARNESS-ERROR: build failed"; echo "$out"; exit 2
 fi
+if [ "$1" = "C17" ] && [ "${2:-${VERIF_TIER:-quick}}" = "thorough" ]; then
+  # the supplementary free-running race pass needs a separately built -race binary
+  go build -race -tags verif -o ../bin/mc-race ./cmd/mc >/dev/null 2>&1 || echo "note: -race build failed; race pass will be skipped"
+fi
 cd ..
 case "$1" in
   replay) exec ./bin/mc replay "$2" ;;
